@@ -86,7 +86,7 @@ out.append('')
 out.append('Totals: %(total)d seeded changes (rounds 1–3: four per property, varied; round 4: two more per property, '
            'asked to be SUBTLE — changed defaults, per-client vs per-connection state, wrong receiver or lock kind, '
            'closure capture, boundary sizes; round 5: two more per property, written as the plausible '
-           'bug fix / clean-up / feature of a hurried maintainer, at least one in a function no earlier change touched; round 6: one more for C03–C09, C12–C18 and C20, asked for changes that need something specific to manifest); reported with a concrete failing input by the property\'s own check: '
+           'bug fix / clean-up / feature of a hurried maintainer, at least one in a function no earlier change touched; round 6: one more for every property, asked for changes that need something specific to manifest); reported with a concrete failing input by the property\'s own check: '
            '%(concrete)d; reported by the own check through a broken proof/tie only (`no-failing-input-found`): %(tie)d; '
            'reported (concretely) only by a neighbouring property\'s check: %(other)d; not reported: %(missed)d. '
            '%(strengthened)d of them were missed or tie-only when first evaluated and led to a stronger generator, '
